@@ -157,10 +157,12 @@ func CreateAggregateFunctionMerger(aggregateFunc *ast.AggregateFuncExpr, fieldIn
 	case "count":
 		ret := new(AggregateFuncCountMerger)
 		ret.fieldIndex = fieldIndex
+		ret.distinct = aggregateFunc.Distinct
 		return ret, nil
 	case "sum":
 		ret := new(AggregateFuncSumMerger)
 		ret.fieldIndex = fieldIndex
+		ret.distinct = aggregateFunc.Distinct
 		return ret, nil
 	case "max":
 		ret := new(AggregateFuncMaxMerger)
@@ -187,6 +189,9 @@ type AggregateFuncCountMerger struct {
 
 // MergeTo implement AggregateFuncMerger
 func (a *AggregateFuncCountMerger) MergeTo(from, to ResultRow) error {
+	if a.distinct {
+		return fmt.Errorf("COUNT(DISTINCT) cannot be merged from per-shard results")
+	}
 	idx := a.fieldIndex
 	if idx >= len(from) || idx >= len(to) {
 		return fmt.Errorf("field index out of bound: %d", a.fieldIndex)
@@ -211,6 +216,9 @@ type AggregateFuncSumMerger struct {
 
 // MergeTo implement AggregateFuncMerger
 func (a *AggregateFuncSumMerger) MergeTo(from, to ResultRow) error {
+	if a.distinct {
+		return fmt.Errorf("SUM(DISTINCT) cannot be merged from per-shard results")
+	}
 	idx := a.fieldIndex
 	if idx >= len(from) || idx >= len(to) {
 		return fmt.Errorf("field index out of bound: %d", a.fieldIndex)
